@@ -398,10 +398,14 @@ impl Reference {
             Type::Var { tipo, .. } => match tipo.borrow().deref() {
                 TypeVar::Link { tipo } => Self::from_type(tipo.as_ref(), type_parameters),
                 TypeVar::Generic { id } | TypeVar::Unbound { id } => {
-                    if let Some(tipo) = type_parameters.get(id) {
-                        Self::from_type(tipo, type_parameters)
-                    } else {
-                        Self::from_type(&Type::data(), type_parameters)
+                    match type_parameters.get(id) {
+                        // NOTE: A generic may be bound to itself (a generic data-type visited
+                        // on its own, e.g. when exporting all types); following the binding
+                        // would never terminate. Like for schemas, it then stands for Data.
+                        Some(tipo) if tipo.get_generic_id() != Some(*id) => {
+                            Self::from_type(tipo, type_parameters)
+                        }
+                        _ => Self::from_type(&Type::data(), type_parameters),
                     }
                 }
             },
